@@ -103,6 +103,17 @@ Definition grouped_text (ds : list N) : list N :=
 
 Definition fraction_text (ip fp : list N) : list N := map adigit ip ++ 46 :: map adigit fp.
 
+(* ------------------------------------------------------------------ two groups with arbitrary large units *)
+(* room below the last small unit of a group written with kanji units: 0 after a ones digit, 1 / 2 / 3 after 十 / 百 / 千 *)
+Definition groom3 (a b c : N) : nat := if negb (N.eqb c 0) then 1%nat else if negb (N.eqb b 0) then 2%nat else 3%nat.
+Definition groom (g : grp) : nat := let '(a, b, c, d) := g in if N.eqb d 0 then groom3 a b c else 0%nat.
+
+(* <group 1> U1 <group 2> U2 ; accepted iff the digits of group 2 plus E2 fit into room(group 1) + E1; digits of the sum *)
+Definition two_unit_text (w1 w2 : grp -> list N) g1 u1 g2 u2 : list N := (w1 g1 ++ [u1]) ++ (w2 g2 ++ [u2]).
+Definition two_unit_fits (room1 : grp -> nat) g1 E1 g2 E2 : bool := (length (sdig g2) + E2 <=? room1 g1 + E1)%nat.
+Definition two_unit_digits g1 E1 g2 E2 : list N :=
+  firstn (length (sdig g1) + E1 - (length (sdig g2) + E2)) (sdig g1 ++ repeat 0 E1) ++ sdig g2 ++ repeat 0 E2.
+
 (* ------------------------------------------------------------------ entry point of the correspondence shards *)
 (* kinds / styles as bit masks: bit i of kinds = group i Arabic; bits 4i..4i+3 of styles = one1000, one100, one10,
    arabic coefficients of group i *)
@@ -116,3 +127,17 @@ Definition styles_of (m : N) (i : nat) : gstyle :=
 Definition check_canon (kinds styles n : N) (input : list N) (ok : bool) (err : N) (norm : list N) : bool :=
   text_eqb input (canon_of (kinds_of kinds) (styles_of styles) n) &&
   check_parse input ok err norm && ok && text_eqb norm (map digit_char (dec16 n)).
+
+Definition uchar_of (E : nat) : N :=
+  if Nat.eqb E 4 then UMAN else if Nat.eqb E 8 then UOKU else if Nat.eqb E 12 then UCHO else 0.
+Definition writer_of (arabic : bool) (st : N) : grp -> list N := if arabic then arabic_group else kanji_group (styles_of st 0).
+Definition room_of (arabic : bool) : grp -> nat := if arabic then (fun _ => 0%nat) else groom.
+
+(* <group 1> U1 <group 2> U2 with any two large units: the implementation accepts exactly when the theorem
+   C15_unit_order_behaviour says so, and then with the digits of the sum *)
+Definition check_two_units (ar1 : bool) (st1 : N) (ar2 : bool) (st2 : N) (g1 : grp) (E1 : nat) (g2 : grp) (E2 : nat)
+           (input : list N) (ok : bool) (err : N) (norm : list N) : bool :=
+  text_eqb input (two_unit_text (writer_of ar1 st1) (writer_of ar2 st2) g1 (uchar_of E1) g2 (uchar_of E2)) &&
+  check_parse input ok err norm &&
+  Bool.eqb ok (two_unit_fits (room_of ar1) g1 E1 g2 E2) &&
+  (if ok then text_eqb norm (map digit_char (two_unit_digits g1 E1 g2 E2)) else N.eqb err 0).
